@@ -422,6 +422,13 @@ def execute(E, st, ins):
         return done()
     if 'rep' in ins.prefix or 'repz' in ins.prefix or 'repnz' in ins.prefix or m in ('movs', 'stos', 'lods', 'scas', 'cmps'):
         raise Unsupported('string instruction ' + ins.text)
+    if 'lock' in ins.prefix:
+        st.events.append(('lock-rmw', ins.addr, m))
+    if m == 'cmpxchg' and E.mode == 'sweep':
+        # compare-and-swap: rax and the flags become unknown (either outcome), the memory operand is rewritten
+        st.r[0] = fresh(64, 'cas')
+        st.flags = None
+        return done()
     if 'lock' in ins.prefix and m == 'xadd':
         w = o[0].width or o[1].width
         a, b = E.get(st, ins, o[0], w), E.getg(st, o[1])
